@@ -21,7 +21,7 @@ def obligations(tier, kind='inner', mode='rows', prefix='inner'):
     def add(nl, nr, **kw):
         c = {'nl': nl, 'nr': nr, 'kind': kind, 'mode': mode, 'K': 1, 'W': 1, 'ktype': 'int', 'spec': 'name'}
         c.update(kw)
-        tag = ','.join('%s=%s' % (k, c[k]) for k in ('K', 'W', 'ktype', 'ktype2', 'spec', 'nones') if (k in kw))
+        tag = ','.join('%s=%s' % (k, c[k]) for k in ('K', 'W', 'Wl', 'Wr', 'ktype', 'ktype2', 'spec', 'nones') if (k in kw))
         hs = c.pop('hashseed', 0)
         name = '%s[%dx%d%s%s]' % (prefix, nl, nr, (',' + tag) if tag else '', (',seed=%d' % hs) if 'seed' in kw or hs else '')
         big = (nl + nr >= 5) or c['K'] >= 2
@@ -35,6 +35,12 @@ def obligations(tier, kind='inner', mode='rows', prefix='inner'):
     add(2, 2, K=2, nones=False)
     add(2, 2, W=0)
     add(2, 2, W=2)
+    obs.append(dict(name='%s[rejoin after a key write,2x2]' % prefix, fn='h_join',
+                    config={'nl': 2, 'nr': 2, 'kind': kind, 'mode': 'rejoin', 'K': 1, 'W': 0, 'ktype': 'int', 'spec': 'name', 'nones': False, 'expect': 'many_to_many'},
+                    budget=120 if q else 400, bounds='2x2 rows, every key pattern; join once, write a solver-chosen key class into a solver-chosen key cell of either table, join again: the second result follows the new keys',
+                    smoke=[[0, 1, 0, 1, 0, 0] + [0] * 6 + [1, 0, 0, 1, 0, 0, 0, 0, 0, 0, 0, 0] + [-1, -1]]))
+    add(2, 2, Wr=2)
+    add(2, 2, Wl=2, W=0)
     for kt in ('str', 'bool', 'date', 'hashy'):
         add(2, 2, ktype=kt)
     for sp in ('col', 'ext'):
